@@ -11,14 +11,12 @@
 #include <tbb/global_control.h>
 
 using namespace vf;
-typedef BG<double>::Graph G;
-typedef BG<double>::Edge E;
-typedef BG<double>::WMap WM;
 
 static const char *mpi_names[] = {"mcb_sva_signed_mpi", "mcb_sva_fvs_trees_mpi", "mcb_sva_fvs_trees_tbb_mpi", "mcb_sva_iso_trees_mpi", "mcb_sva_iso_trees_tbb_mpi"};
 static FILE *g_out = nullptr;
 
-static double run_mpi(int entry, const G &g, WM w, std::list<std::list<E>> &out, boost::mpi::communicator &world) {
+template<class W>
+static W run_mpi(int entry, const typename BG<W>::Graph &g, typename BG<W>::WMap w, std::list<std::list<typename BG<W>::Edge>> &out, boost::mpi::communicator &world) {
     switch (entry) {
     case 0: return parmcb::mcb_sva_signed_mpi(g, w, std::back_inserter(out), world);
     case 1: return parmcb::mcb_sva_fvs_trees_mpi(g, w, std::back_inserter(out), world);
@@ -28,46 +26,23 @@ static double run_mpi(int entry, const G &g, WM w, std::list<std::list<E>> &out,
     }
 }
 
+static bool to_units_d(const GraphSpec &, int v, ll &u) { u = v; return true; }
 static bool to_units_d(const GraphSpec &s, double v, ll &u) { double x = std::ldexp(v, s.wshift); if (!std::isfinite(x) || std::fabs(x) > 9e18 || x != std::floor(x)) return false; u = (ll) x; return true; }
 
-int main(int argc, char **argv) {
-    boost::mpi::environment env(argc, argv, boost::mpi::threading::multiple);
-    boost::mpi::communicator world;
-    Args a(argc, argv);
-    std::string prefix = a.gets("out", "/tmp/h_mpi");
-    int rank = world.rank(), P = world.size();
-    g_out = fopen((prefix + ".rank" + std::to_string(rank)).c_str(), "w");
-    if (!g_out) { fprintf(stderr, "cannot open output\n"); return 2; }
-    auto mark = [&](uint64_t i, int entry, const char *what, const std::string &extra = "") { fprintf(g_out, "M %llu %s %s %s\n", (unsigned long long) i, mpi_names[entry], what, extra.c_str()); fflush(g_out); };
-    tbb::global_control gc(tbb::global_control::max_allowed_parallelism, (size_t) std::max<ll>(1, a.geti("tbb_threads", 2)));
-    int max_n = (int) a.geti("max_n", 22);
-    std::string layout_mode = a.gets("layout", "mixed");
-    int elo = (int) a.geti("entry_lo", 0), ehi = (int) a.geti("entry_hi", 4);
-    long selfq = 0;
-    if (rank == 0) { std::string why; selfq = oracle_selfcheck(a.seed + a.from, (int) a.geti("selfcheck", 20), why); if (selfq < 0) { fprintf(g_out, "X %s\n", J().str("msg", why).done().c_str()); fflush(g_out); world.abort(2); } }
-    for (uint64_t i = a.from; i < a.to; i++) {
-        Rng r(case_seed(a.seed, "C04", i));       // identical on all ranks
-        GraphSpec s;
-        if (!a.replay.empty()) { std::ifstream in(a.replay); if (!parse_spec(in, s)) { if (rank == 0) { fprintf(g_out, "X {\"msg\":\"cannot parse replay spec\"}\n"); fflush(g_out); } world.abort(2); } }
-        else {
-            GenOpts o; o.max_n = max_n; o.tie_bias = 0.55; o.allow_degenerate = true;
-            if (r.chance(0.2)) { // dense: the all-vertices branch of the signed variant (|S_k| >= n) runs, with n not divisible by most rank counts
-                Topo t; int n = (int) r.range(6, std::min(max_n, 13)); topo_er(r, t, n, 0.7 + 0.3 * r.real()); dedup(t);
-                s.n = n; for (auto &e : t) s.edges.push_back({e.first, e.second, 1}); r.shuffle(s.edges); s.family = "er_dense"; assign_weights(r, s, o, false); }
-            else if (r.chance(0.35)) { Topo t; int n = (int) r.range(4, max_n); topo_er(r, t, n, std::min(1.0, (1.5 + 5 * r.real()) / n)); if (r.chance(0.7)) topo_tree(r, t, n); dedup(t);
-                s.n = n; for (auto &e : t) s.edges.push_back({e.first, e.second, 1}); r.shuffle(s.edges); s.family = "er"; assign_weights(r, s, o, false); }
-            else s = gen_graph(r, o);
-        }
-        bool scramble = layout_mode == "scrambled" || (layout_mode == "mixed" && r.chance(0.7));
-        uint64_t lseed = a.opt.count("layout_seed") ? strtoull(a.gets("layout_seed", "1").c_str(), 0, 10) : r.next();
-        if (rank == 0) { fprintf(g_out, "B %llu\n", (unsigned long long) i); fflush(g_out); }
+struct Ctx { boost::mpi::communicator &world; int rank, P; const Args &a; int elo, ehi; };
+static void mark(uint64_t i, int entry, const char *what, const std::string &extra = "") { fprintf(g_out, "M %llu %s %s %s\n", (unsigned long long) i, mpi_names[entry], what, extra.c_str()); fflush(g_out); }
+
+template<class W>
+static void run_case(Ctx &c, uint64_t i, const GraphSpec &s, bool scramble, uint64_t lseed) {
+    boost::mpi::communicator &world = c.world; int rank = c.rank, P = c.P; const Args &a = c.a; int elo = c.elo, ehi = c.ehi;
         int dim = cycle_space_dim(s);
         {
             { std::set<std::pair<int, int>> seen; bool bad = false; for (auto &e : s.edges) if (e.u == e.v || e.w <= 0 || e.u >= s.n || e.v >= s.n || !seen.insert({std::min(e.u, e.v), std::max(e.u, e.v)}).second) bad = true;
               if (bad) { if (rank == 0) { fprintf(g_out, "X {\"msg\":\"generator left the domain in h_mpi, family %s\"}\n", s.family.c_str()); fflush(g_out); } world.abort(2); } }
+            typedef typename BG<W>::Graph G; typedef typename BG<W>::Edge E; typedef typename BG<W>::WMap WM;
             G g(s.n); WM w = boost::get(boost::edge_weight, g);
             vscr::begin(scramble, mix(lseed, (uint64_t) rank + 1), 2 * s.edges.size() + 3 * (size_t) s.n + 64);
-            for (auto &e : s.edges) { auto x = boost::add_edge(e.u, e.v, g).first; w[x] = to_weight<double>(s, e.w); }
+            for (auto &e : s.edges) { auto x = boost::add_edge(e.u, e.v, g).first; w[x] = to_weight<W>(s, e.w); }
             vscr::end();
             // per-rank layout signature: order of edge-property addresses relative to insertion order
             std::vector<std::pair<const void*, int>> addr; int k = 0;
@@ -77,24 +52,24 @@ int main(int argc, char **argv) {
             std::vector<std::string> viols; std::vector<std::string> tags;
             OracleResult orc; if (rank == 0) orc = horton_oracle(s);
             for (int entry = elo; entry <= ehi; entry++) {
-                std::list<std::list<E>> cycles; double ret = 0; std::string exc;
+                std::list<std::list<E>> cycles; W ret = 0; std::string exc;
                 mark(i, entry, "ENTER");
-                try { ret = run_mpi(entry, g, w, cycles, world); } catch (std::exception &e) { exc = e.what(); } catch (...) { exc = "unknown"; }
-                { char b[96]; snprintf(b, sizeof b, "emitted=%zu value=%.17g", cycles.size(), ret); mark(i, entry, "RETURN", b); }
+                try { ret = run_mpi<W>(entry, g, w, cycles, world); } catch (std::exception &e) { exc = e.what(); } catch (...) { exc = "unknown"; }
+                { char b[96]; snprintf(b, sizeof b, "emitted=%zu value=%.17g", cycles.size(), (double) ret); mark(i, entry, "RETURN", b); }
                 // non-root ranks must emit nothing
                 int emitted_elsewhere = (rank != 0 && !cycles.empty()) ? 1 : 0; int any = 0;
                 boost::mpi::reduce(world, emitted_elsewhere, any, std::plus<int>(), 0);
                 int threw = exc.empty() ? 0 : 1, anythrew = 0; boost::mpi::reduce(world, threw, anythrew, std::plus<int>(), 0);
                 if (rank == 0) {
-                    std::string cj = J().str("entry", mpi_names[entry]).num("ranks", P).str("layout", scramble ? "scrambled" : "natural").unum("layout_seed", lseed).raw("graph", spec_json(s)).done();
+                    std::string cj = J().str("entry", mpi_names[entry]).str("weight_type", std::is_same<W, int>::value ? "int" : "double").num("ranks", P).str("layout", scramble ? "scrambled" : "natural").unum("layout_seed", lseed).raw("graph", spec_json(s)).done();
                     std::string key = std::string(mpi_names[entry]) + ":";
                     auto V = [&](const std::string &k2, const std::string &detail, const std::string &obs = "{}") {
                         viols.push_back(J().str("key", key + k2).str("detail", detail + " [P=" + std::to_string(P) + ", layout " + (scramble ? "scrambled seed " + std::to_string(lseed) : std::string("natural")) + "]").raw("case", cj).str("spec_text", spec_text(s)).raw("observed", obs).done()); };
                     if (anythrew) V("exception", "an exception escaped on " + std::to_string(anythrew) + " rank(s): " + exc);
                     else {
                         if (any) V("nonroot_emitted", std::to_string(any) + " non-root rank(s) emitted cycles");
-                        BasisReport br = check_basis<double>(s, g, cycles);
-                        std::string obs = J().num("emitted_cycles", (ll) br.count).raw("cycle_weights_units", jnums(br.weights)).dbl("returned", ret).num("optimum_units", orc.opt).done();
+                        BasisReport br = check_basis<W>(s, g, cycles);
+                        std::string obs = J().num("emitted_cycles", (ll) br.count).raw("cycle_weights_units", jnums(br.weights)).dbl("returned", (double) ret).num("optimum_units", orc.opt).done();
                         if (!br.error.empty()) V("invalid_basis(" + br.kind + ")", br.error, obs);
                         else {
                             ll ru; if (!to_units_d(s, ret, ru) || ru != br.total) V("returned_ne_emitted", "returned " + std::to_string(ret) + ", emitted cycles weigh " + std::to_string(br.total) + " units", obs);
@@ -105,8 +80,8 @@ int main(int argc, char **argv) {
             }
             if (rank == 0) {
                 std::set<uint64_t> ds(sigs.begin(), sigs.end());
-                char hb[32]; snprintf(hb, sizeof hb, "%016llx", (unsigned long long) mix(mix(canon_hash(s), P), scramble ? lseed : 0));
-                tags.push_back("P=" + std::to_string(P)); tags.push_back(std::string("fam:") + s.family.substr(0, s.family.find('+')));
+                char hb[32]; snprintf(hb, sizeof hb, "%016llx", (unsigned long long) mix(mix(mix(canon_hash(s), P), scramble ? lseed : 0), std::is_same<W, int>::value ? 1 : 0));
+                tags.push_back("P=" + std::to_string(P)); tags.push_back(std::is_same<W, int>::value ? "wtype:int" : "wtype:double"); tags.push_back(std::string("fam:") + s.family.substr(0, s.family.find('+')));
                 tags.push_back(scramble ? "layout:scrambled" : "layout:natural"); if (ds.size() >= 2) tags.push_back("ranks_hold_different_layouts");
                 if (dim == 0) tags.push_back("forest_or_empty"); if (dim >= 2 && dim < s.n) tags.push_back("signed:hidden_edge_branch_possible"); if (dim >= s.n && dim >= 2) tags.push_back("signed:dense_branch_possible");
                 if (P > s.n) tags.push_back("P>n"); if (P > dim && dim > 0) tags.push_back("P>csd");
@@ -117,6 +92,41 @@ int main(int argc, char **argv) {
                 fprintf(g_out, "E %llu %s\n", (unsigned long long) i, j.done().c_str()); fflush(g_out);
             }
         }
+}
+
+int main(int argc, char **argv) {
+    boost::mpi::environment env(argc, argv, boost::mpi::threading::multiple);
+    boost::mpi::communicator world;
+    Args a(argc, argv);
+    std::string prefix = a.gets("out", "/tmp/h_mpi");
+    int rank = world.rank(), P = world.size();
+    g_out = fopen((prefix + ".rank" + std::to_string(rank)).c_str(), "w");
+    if (!g_out) { fprintf(stderr, "cannot open output\n"); return 2; }
+    tbb::global_control gc(tbb::global_control::max_allowed_parallelism, (size_t) std::max<ll>(1, a.geti("tbb_threads", 2)));
+    int max_n = (int) a.geti("max_n", 22);
+    std::string layout_mode = a.gets("layout", "mixed");
+    int elo = (int) a.geti("entry_lo", 0), ehi = (int) a.geti("entry_hi", 4);
+    long selfq = 0;
+    if (rank == 0) { std::string why; selfq = oracle_selfcheck(a.seed + a.from, (int) a.geti("selfcheck", 20), why); if (selfq < 0) { fprintf(g_out, "X %s\n", J().str("msg", why).done().c_str()); fflush(g_out); world.abort(2); } }
+    for (uint64_t i = a.from; i < a.to; i++) {
+        Rng r(case_seed(a.seed, "C04", i));       // identical on all ranks
+        GraphSpec s; bool use_int = false;
+        if (!a.replay.empty()) { std::ifstream in(a.replay); if (!parse_spec(in, s)) { if (rank == 0) { fprintf(g_out, "X {\"msg\":\"cannot parse replay spec\"}\n"); fflush(g_out); } world.abort(2); } use_int = a.gets("wtype", "double") == "int"; }
+        else {
+            use_int = r.chance(0.25);   // the weight value type is a template parameter (reductions, sentinels): int as well as double
+            GenOpts o; o.max_n = max_n; o.tie_bias = 0.55; o.allow_degenerate = true; o.int_only = use_int;
+            if (r.chance(0.2)) { // dense: the all-vertices branch of the signed variant (|S_k| >= n) runs, with n not divisible by most rank counts
+                Topo t; int n = (int) r.range(6, std::min(max_n, 13)); topo_er(r, t, n, 0.7 + 0.3 * r.real()); dedup(t);
+                s.n = n; for (auto &e : t) s.edges.push_back({e.first, e.second, 1}); r.shuffle(s.edges); s.family = "er_dense"; assign_weights(r, s, o, false); }
+            else if (r.chance(0.35)) { Topo t; int n = (int) r.range(4, max_n); topo_er(r, t, n, std::min(1.0, (1.5 + 5 * r.real()) / n)); if (r.chance(0.7)) topo_tree(r, t, n); dedup(t);
+                s.n = n; for (auto &e : t) s.edges.push_back({e.first, e.second, 1}); r.shuffle(s.edges); s.family = "er"; assign_weights(r, s, o, false); }
+            else s = gen_graph(r, o);
+        }
+        if (use_int) { ll tot = 0; for (auto &e : s.edges) tot += e.w; if (s.wshift != 0 || s.wmode != 0 || tot * 12 > 2000000000LL) use_int = false; }
+        bool scramble = layout_mode == "scrambled" || (layout_mode == "mixed" && r.chance(0.7));
+        uint64_t lseed = a.opt.count("layout_seed") ? strtoull(a.gets("layout_seed", "1").c_str(), 0, 10) : r.next();
+        if (rank == 0) { fprintf(g_out, "B %llu\n", (unsigned long long) i); fflush(g_out); }
+        { Ctx cx{world, rank, P, a, elo, ehi}; if (use_int) run_case<int>(cx, i, s, scramble, lseed); else run_case<double>(cx, i, s, scramble, lseed); }
         if (!a.replay.empty()) break;
     }
     if (rank == 0) { fprintf(g_out, "S %s\n", J().num("oracle_selfcheck_graphs", selfq).done().c_str()); fflush(g_out); }
